@@ -374,7 +374,8 @@ def check_C16(ctx, rep):
              'action\'s bypass; the client branch writes only the client state and vice versa; a BlockingBegin{machine} carrying the action\'s '
              'machine is returned on every path through the arm')
     rep.rule('C16.R2', 'the expiry branch of pick_next clears blocking_until of the expiring side and builds exactly one BlockingEnd at '
-             'current_time + b (+ reporting delay); BlockingBegin is built only in do_scheduled_action and BlockingEnd only in pick_next')
+             'current_time + b (+ reporting delay); BlockingBegin is built only in do_scheduled_action and BlockingEnd only in pick_next; '
+             'pick_next consults the blocking expiry and the scheduled actions on every path')
     rep.rule('C16.R3', 'when BlockingBegin is produced blocking_until of that side is definitely Some (typestate of the Option slot): on every '
              'path either the slot was just stored Some or it was tested to be Some')
     rep.rule('C16.R4', 'side consistency of the bypass decision in peek_queue: a state\'s blocking_bypassable is consulted only on paths where the '
@@ -484,6 +485,8 @@ def check_C16(ctx, rep):
     rep.ob('C16.R2', '<inventory>', 'BlockingEnd-producers', [f.name for f in pe_] == ['pick_next'], '%s' % [f.short() for f in pe_])
     ends = [(site, evn, evf, flds) for (site, evn, evf, flds, ln) in sim_events(pa) if evn == 'BlockingEnd']
     rep.count_exact('C16.R2', 'BlockingEnd events built in pick_next', len(ends), 1)
+    pick_next_consults(ctx, rep, 'C16.R2', 'peek_blocked_exp', 'a blocking expiry that is not looked at never reports BlockingEnd')
+    pick_next_consults(ctx, rep, 'C16.R2', 'peek_scheduled_action', 'a scheduled BlockOutgoing that is not looked at never begins blocking')
     rsn = lambda pe, val: is_field(pe, 'blocking_until', 'SimState')
     ppf = an.paths(pn, history=True, record_stores=rsn, tag='until')
     for (site, evn, evf, flds) in ends:
@@ -772,6 +775,22 @@ def second_search_rule(ctx, rep, rid, ds, helpers):
 
 
 
+def pick_next_consults(ctx, rep, rid, source, what):
+    """pick_next decides from the earliest of five sources; `source` (a peek function) is consulted on every path before anything is
+    returned.  A fast path that skips the scan on the strength of a cached count is reported: the count is one more copy of the slot
+    state that every writer has to keep exact, which these rules do not verify."""
+    prog, an = ctx.prog, ctx.an
+    pn = sim_fn(prog, 'pick_next')
+    pa = an.get(pn)
+    sites = [b for (b, f, a, t) in calls(pa) if callee_str(f).endswith(source)]
+    rep.ob(rid, pn, 'pick_next-calls:' + source, len(sites) == 1, '%d call sites' % len(sites))
+    if len(sites) != 1:
+        return
+    rets = [b for (b, k, v) in ret_defs(pa)]
+    ok = bool(rets) and all(pa.cfg.dominates(sites[0], b) for b in rets)
+    rep.ob(rid, pn, 'pick_next-always-consults:' + source, ok, '%s is evaluated on every path of pick_next before a result is produced (%s)' % (source, what))
+
+
 def action_loop_rule(ctx, rep, rid, tu, fa, h, body):
     """every action the framework returned is handled: the loop over the actions is left only when the iterator is exhausted
     (a return / break in one arm drops the actions of the machines that follow)"""
@@ -798,7 +817,8 @@ def check_C17(ctx, rep):
     rep.rule('C17.R3', 'do_scheduled_action: the slot found is cleared on the same path and the search stops there (fires once); the event carries '
              'the action\'s time; SendPadding -> PaddingSent{machine} with bypass/replace from the action; BlockOutgoing -> BlockingBegin{machine}; '
              'PaddingSent/BlockingBegin are built nowhere else')
-    rep.rule('C17.R4', 'peek_scheduled_action treats an action due exactly at current_time as eligible (non-strict comparison), both sides')
+    rep.rule('C17.R4', 'peek_scheduled_action treats an action due exactly at current_time as eligible (non-strict comparison), both sides; '
+             'pick_next consults it on every path')
     tu = sim_fn(prog, 'trigger_update')
     fa = an.get(tu)
     rep.analysed(tu)
@@ -983,6 +1003,7 @@ def check_C17(ctx, rep):
     rep.ob('C17.R3', '<inventory>', 'PaddingSent-producers', [f.name for f in pp] == ['do_scheduled_action'], '%s' % [f.short() for f in pp])
     # ---- R4
     peek_nonstrict(ctx, rep, 'C17.R4', 'peek_scheduled_action', 'action')
+    pick_next_consults(ctx, rep, 'C17.R4', 'peek_scheduled_action', 'a scheduled action that is not looked at never fires')
     rep.assumptions += ['that the due action is picked before simulated time passes it is NOT decided beyond eligibility of due-now slots',
                         'every CFG path is treated as feasible']
     return 'handler tables for action timers in the simulator: slot overwrite, Cancel table, fire-once lookup, event translation'
@@ -1220,6 +1241,7 @@ def check_C18(ctx, rep):
         elif evn is not None:
             rep.ob('C18.R2', di, 'unexpected-event:' + evn, False, '')
     peek_nonstrict(ctx, rep, 'C18.R4', 'peek_scheduled_internal_timer', 'timer')
+    pick_next_consults(ctx, rep, 'C18.R4', 'peek_scheduled_internal_timer', 'a running timer that is not looked at never reports TimerEnd')
     rep.assumptions += ['expiry selection order among several due items is NOT decided', 'every CFG path is treated as feasible']
     return 'handler tables for internal timers in the simulator: start rule, store/TimerBegin pairing, fire-once expiry, eligibility of due-now timers'
 
@@ -1256,7 +1278,8 @@ def check_C19(ctx, rep):
              'the seed, the server with seed.wrapping_add(1), both through Xoshiro256StarStar::seed_from_u64')
     rep.rule('C19.R2', 'filter purity: only_client_events / only_network_activity are read only in sim_advanced, only as branch conditions whose '
              'controlled region (up to the immediate post-dominator) contains nothing but building and pushing the trace entry')
-    rep.rule('C19.R3', 'no narrowing integer cast feeds a divisor in the simulator')
+    rep.rule('C19.R3', 'no narrowing integer cast feeds a divisor in the simulator; the parser counts every queued packet for the '
+             'packets-per-second estimate that NetworkBottleneck::new falls back to as a divisor')
     rep.rule('C19.R4', 'stop structure: every path around the main loop passes the sim_iterations increment and the max_sim_iterations and '
              'max_trace_length comparisons; every self-call of pick_next is preceded on its path by a consuming operation')
     sa = sim_fn(prog, 'sim_advanced')
@@ -1408,6 +1431,27 @@ def check_C19(ctx, rep):
             narrowing = [x for x in walk(div) if isinstance(x, tuple) and x and x[0] == 'cast' and x[1] == 'IntToInt' and int_width(x[2]) < int_width(cast_from(x))]
             rep.ob('C19.R3', fn, 'divisor:%s' % shape(div)[:50], not narrowing, 'divisor %s%s' % (shape(div), ' contains a narrowing cast' if narrowing else ''), site='%s:%d' % (fn.file, bb['ln']))
     rep.count_floor('C19.R3', 'divisions in the simulator', n_div, 1)
+    # the divisor of NetworkBottleneck::new falls back to the packets-per-second estimate of the parser: it is at least 1 for a
+    # non-empty trace because every queued packet is counted in a window before the next line is read
+    pt = sim_fn(prog, 'parse_trace_advanced')
+    pta = an.get(pt)
+    ploops = pta.cfg.loops()
+    adds = {b for (b, f, a, t) in calls(pta) if callee_str(f).endswith('WindowCount::add')}
+    n_push = 0
+    for (b, kind, a) in push_calls(pta):
+        if kind != 'push':
+            continue
+        hs = sorted((len(body), h) for h, body in ploops.items() if b in body)
+        if not hs:
+            continue
+        n_push += 1
+        lo, hi = count_between(pta, b, hs[-1][1], adds)
+        rep.ob('C19.R3', pt, 'queued-packet-counted-for-the-pps-estimate', lo >= 1,
+               'WindowCount::add calls between the push and the next line: at least %s (max_pps = 0 makes NetworkBottleneck::new divide by zero)' % lo)
+    rep.count_floor('C19.R3', 'queued packets in parse_trace_advanced', n_push, 1)
+    mp = [v for (pe, v, site) in field_stores(pta, 'max_pps', 'SimQueue')]
+    rep.ob('C19.R3', pt, 'max_pps-from-the-window-maxima', len(mp) == 1 and mp[0][0] == 'agg' and mp[0][2] == 'Some' and
+           contains(mp[0], lambda y: is_call(y, 'WindowCount::add') or (isinstance(y, tuple) and y and y[0] in ('phi', 'rec', 'call', 'bin'))), 'max_pps = %s' % (shape(mp[0]) if mp else None))
     # ---- R4
     loops = saa.cfg.loops()
     main = [h for h, body in loops.items() if any(callee_str(f).endswith('pick_next') for (b, f, a, t) in calls(saa) if b in body)]
